@@ -190,6 +190,14 @@ impl Family for C09Family {
             if r.chance(1, 3) {
                 op_user.push(UserOutcome::Check { presence: true, verification: r.bool() });
             }
+            // a CTAP-level assertion that waives the presence test: verification (or its absence) alone decides
+            // which secret keys the result
+            if let OpKind::GetAssertion(g) = &mut kind {
+                if r.chance(1, 6) {
+                    g.up = false;
+                    op_user = vec![UserOutcome::Check { presence: false, verification: r.bool() }];
+                }
+            }
             if malformed_run && i == bad_at {
                 let vals: PrfVals = (r.bytes(8), None);
                 match &mut kind {
